@@ -187,6 +187,15 @@ SPECIAL = [
 	'@deco(1, k=2)\n@other\ndef f(a, b: int = 2, *args: int, **kw: str) -> list[int] | None:\n\tyield a\n',
 ]
 
+# blocks with more than 10 and more than 100 children of one tag: sibling indices of two and three digits in every path the declaration /
+# classification matchers read (seeded C02/13: an index-stripping fast path that handled one or two digits only)
+SPECIAL += [
+	'def f() -> None:\n' + ''.join(f'\tv{i} = {i}\n' for i in range(104)) + '\tprint(v0, v103)\n',
+	''.join(f'g{i} = {i}\n' for i in range(103)) + 'def tail() -> None:\n\tw = g102\n',
+	'class Wide:\n' + ''.join(f'\tdef m{i}(self) -> None:\n\t\tx{i} = {i}\n' for i in range(101)) + '\t@classmethod\n\tdef make(cls) -> None:\n\t\ty = 1\n\tdef __init__(self) -> None:\n\t\tself.a = 1\n\t\tb = 2\n',
+	'def f(a: int) -> None:\n' + ''.join(f'\tfor i{i} in a:\n\t\tj{i} = i{i}\n' for i in range(12)) + ''.join(f'\twith a as k{i}:\n\t\tpass\n' for i in range(12)),
+]
+
 WITNESS_CHAIN = 'a = b = c\n'
 WITNESS_WITH = 'with (a, b):\n\tpass\n'
 WITNESS_SELF_DESTRUCTURE = 'class A:\n\tdef __init__(self) -> None:\n\t\tself.a, self.b = 1, 2\n'
